@@ -130,7 +130,7 @@ def main(argv):
                    "--args", json.dumps(job.get("args") or {})]
             specs.append({"cmd": cmd, "env": job_env(job, work, idx, root), "out": out,
                           "log": os.path.join(work, "log-%03d.txt" % idx),
-                          "timeout": job.get("timeout", 600 if tier == "quick" else 3600),
+                          "timeout": job.get("timeout", 1800 if tier == "quick" else 10800),
                           "job": job, "shard": s, "weight": job.get("weight", 1)})
     # heavier jobs first
     order = sorted(range(len(specs)), key=lambda i: -specs[i]["weight"])
